@@ -25,9 +25,9 @@ FRESH, ALIAS, VALUE = 'fresh', 'alias', 'value'
 
 FRESH_CALLS = {'dot', 'tensordot', 'outer', 'zeros', 'zeros_like', 'ones', 'ones_like', 'eye', 'array', 'sqrt', 'exp', 'log', 'abs', 'diag', 'trace', 'sum',
                'inv', 'pinv', 'solve', 'eigh', 'copy', 'kron', 'einsum', 'hstack', 'vstack', 'concatenate', 'min', 'max', 'prod', 'round', 'real', 'imag',
-               'any', 'all', 'allclose', 'isclose', 'linspace', 'arange', 'empty', 'identity', 'transpose_copy', 'multiply', 'negative', 'mean', 'cumsum'}
+               'any', 'all', 'allclose', 'isclose', 'linspace', 'arange', 'empty', 'identity', 'transpose_copy', 'multiply', 'negative', 'mean', 'cumsum', 'pad', 'det', 'floor', 'ceil', 'cross', 'norm'}
 VIEW_CALLS = {'reshape', 'ravel', 'transpose', 'asarray', 'squeeze', 'swapaxes', 'diagonal', 'flat'}      # may return views
-VALUE_CALLS = {'len', 'range', 'enumerate', 'zip', 'int', 'float', 'isinstance', 'next', 'iter', 'list', 'tuple', 'sorted', 'set', 'count', 'str', 'type'}
+VALUE_CALLS = {'len', 'range', 'enumerate', 'zip', 'int', 'float', 'isinstance', 'next', 'iter', 'list', 'tuple', 'sorted', 'set', 'count', 'str', 'type', 'frozenset', 'abs', 'bool'}
 MUTATORS = {'fill', 'sort', 'resize', 'put', 'itemset', 'partition', 'append', 'extend', 'pop', 'remove', 'clear', 'update', 'insert'}
 
 
@@ -58,11 +58,13 @@ class Checker:
         if isinstance(e, ast.Constant): return VALUE
         if isinstance(e, ast.Name):
             if e.id in self.env: return self.env[e.id]
-            if e.id in ('True', 'False', 'None', '__debug__'): return VALUE
-            if e.id in self.c.get('globals', ()): return VALUE
+            if e.id in ('True', 'False', 'None', '__debug__', 'NotImplemented') or (e.id.endswith(('Error', 'Warning')) and e.id[0].isupper()): return VALUE
+            if e.id in self.c.get('globals', ()) or e.id in ('np', 'numpy', 'copy', 'itertools') or hasattr(__import__('builtins'), e.id): return VALUE
             raise Undecided('ownership typing: name %r not bound (line %d)' % (e.id, e.lineno))
         if isinstance(e, ast.Attribute):
             text = ast.unparse(e)
+            if text in self.env: return self.env[text]          # field of an object built here, as last stored
+            if text in self.c.get('owned_fields', ()): return FRESH      # state of the receiver this method is entitled to modify
             if text.startswith('self.'): return ALIAS if text not in self.c.get('value_fields', ()) else VALUE
             if e.attr == 'T': return self.ev(e.value) if self.ev(e.value) != FRESH else FRESH      # transpose of a fresh array is still private
             base = self.ev(e.value)
@@ -117,6 +119,8 @@ class Checker:
         if text in cal:
             r = cal[text]
             return Tup(list(r)) if isinstance(r, (list, tuple)) else r
+        if text in ('copy.deepcopy', 'copy.copy', 'deepcopy'): return FRESH if flat and flat[0] != VALUE else VALUE
+        if text == 'self.__class__': return FRESH
         if isinstance(f, ast.Attribute):
             if text.startswith(('np.', 'numpy.', 'scipy.', 'LA.')) or (isinstance(f.value, ast.Attribute) and ast.unparse(f.value) in ('np.linalg',)):
                 if f.attr in FRESH_CALLS: return FRESH if f.attr not in ('eigh',) else Tup([FRESH, FRESH])
@@ -134,6 +138,7 @@ class Checker:
             if base == VALUE or f.attr in self.c.get('value_methods', ()): return VALUE
             raise Undecided('ownership typing: method %s (line %d) has no contract' % (text, e.lineno))
         if isinstance(f, ast.Name):
+            if f.id.endswith(('Error', 'Warning')) and f.id[0].isupper(): return VALUE
             if f.id in VALUE_CALLS: return VALUE if ALIAS not in flat else ALIAS
             if f.id in ('min', 'max', 'sum', 'abs'): return VALUE
             if f.id in FRESH_CALLS: return FRESH
@@ -168,6 +173,21 @@ class Checker:
             self.ob('no-inplace-on-alias@L%d' % node.lineno, base != ALIAS, 'store into `%s`, which may be shared (a field of self, a cache entry, a parameter)' % ast.unparse(target)[:80], node.lineno)
             return
         if isinstance(target, ast.Attribute):
+            owner = ast.unparse(target.value)
+            fields = self.c.get('new_objects', {}).get(owner)
+            if fields is not None:
+                kind = st if not isinstance(st, Tup) else (ALIAS if any(x == ALIAS for x in st.items) else FRESH)
+                if target.attr in self.c.get('deep_fields', ()) and kind != ALIAS:
+                    v = node.value
+                    shallow = (isinstance(v, ast.Call) and isinstance(v.func, ast.Attribute) and v.func.attr == 'copy' and ast.unparse(v.func) != 'copy.copy' and self.ev(v.func.value) == ALIAS) \
+                        or (isinstance(v, ast.Call) and ast.unparse(v.func) in ('copy.copy', 'list', 'tuple') and any(self.ev(a) == ALIAS for a in v.args)) \
+                        or (isinstance(v, ast.Subscript) and self.ev(v.value) == ALIAS)
+                    self.ob('new-object-field-deep:%s.%s@L%d' % (owner, target.attr, node.lineno), not shallow,
+                            '`%s` copies only the outer container of a nested field: the inner lists stay shared' % ast.unparse(node)[:80], node.lineno)
+                if target.attr in fields:
+                    self.ob('new-object-field-private:%s.%s@L%d' % (owner, target.attr, node.lineno), kind != ALIAS,
+                            '`%s` makes a mutable field of the new object share storage with the object it was built from' % ast.unparse(node)[:80], node.lineno)
+                self.env[ast.unparse(target)] = kind
             return          # re-binding a field: not a mutation of the old value
         raise Undecided('ownership typing: store target (line %d)' % node.lineno)
 
@@ -193,6 +213,12 @@ class Checker:
                 return
             base = self.ev(st.target.value) if isinstance(st.target, (ast.Subscript, ast.Attribute)) else VALUE
             if isinstance(st.target, ast.Attribute):
+                text = ast.unparse(st.target)
+                if text in self.c.get('value_fields', ()): return          # scalar field: arithmetic re-binds
+                if text in self.c.get('owned_fields', ()) or text in self.env:
+                    cur = self.env.get(text, FRESH)
+                    self.ob('no-inplace-on-alias@L%d' % st.lineno, cur != ALIAS, '`%s` modifies in place a field that may share storage with another object' % ast.unparse(st)[:80], st.lineno)
+                    return
                 self.ob('no-inplace-on-alias@L%d' % st.lineno, False, '`%s` modifies a field of self in place' % ast.unparse(st)[:80], st.lineno); return
             self.ob('no-inplace-on-alias@L%d' % st.lineno, base != ALIAS, '`%s` modifies in place an array that may be shared' % ast.unparse(st)[:80], st.lineno)
             return
